@@ -1,4 +1,5 @@
 import XeofsModel.Frame
+import XeofsModel.Sanitize
 import XeofsModel.Generated.Facts
 import XeofsProofs.Lemmas.Mask
 /-!
@@ -12,11 +13,6 @@ features) holds iff the validity mask is a product `rowValid ⊗ colValid` — i
 theorem rectangular_mask {n m : ℕ} (mask : Fin n → Fin m → Bool) :
     XP.Mask.noIsolated mask ↔ ∀ i j, mask i j = (XP.Mask.rowValid mask i && XP.Mask.colValid mask j) :=
   XP.Mask.rectangular_mask mask
-
-/-- the decision the Sanitizer takes at transform time, on the fitted feature mask, the new feature mask and the number of
-valid cells per sample (the shape of the test is a source obligation, below) -/
-def sanitizerAccepts (fitValid newValid : List Bool) (perSample : List Nat) : Bool :=
-  (newValid == fitValid) && perSample.all (fun c => c == 0 || c == (newValid.filter id).length)
 
 /-- **transform_mask_mismatch_refused** -/
 theorem transform_mask_mismatch_refused (fitValid newValid : List Bool) (perSample : List Nat) (h : newValid ≠ fitValid) :
